@@ -32,6 +32,7 @@ class ProgGen:
 		self.n = 0
 		self.lines: list[str] = []
 		self.hist: dict[str, int] = {}
+		self.shadow_calls: list[str] = []
 
 	def fresh(self, p: str) -> str:
 		self.n += 1
@@ -41,8 +42,38 @@ class ProgGen:
 		self.hist[k] = self.hist.get(k, 0) + 1
 
 	def scalar_expr(self, t: str, env: list[tuple[str, X.Ty]], depth: int = 2) -> str:
-		g = X.Gen(self.rng, env, 'search', session={'hetero': 0})
+		g = X.Gen(self.rng, env, 'search', session=None)
 		return g.expr((t,), depth).text
+
+	def shadow_block(self) -> list[str]:
+		"""Name shadowing through nested classes (CPython: a class body is not an enclosing scope for the class bodies and
+		functions nested in it, so a bare name there is the module-level one): a module-level variable, an outer class with a
+		class variable of the same name but another type, bare uses in nested class bodies (one or two levels), in methods of
+		both, and the qualified `Outer.name`."""
+		rng = self.rng
+		tys = rng.sample(['int', 'str', 'float', 'bool', 'list[int]'], 3)
+		val = {'int': '5', 'str': '"x"', 'float': '1.5', 'bool': 'True', 'list[int]': '[1, 2]'}
+		name = rng.choice(['threshold', 'limit', 'k', 'val', 'a']) + (str(rng.randint(0, 9)) if rng.random() < 0.5 else '')
+		other = name + rng.choice(['_', '2', 'x'])          # a longer name with the same prefix, only at module level
+		outer, inner, inner2 = self.fresh('Outer'), self.fresh('Inner'), self.fresh('Deep')
+		g, o, i = tys
+		own = rng.random() < 0.4     # the nested class re-declares the name itself, before using it: then its body sees its own
+		out = ['', f'{name}: {g} = {val[g]}', f'{other}: {o} = {val[o]}', '', '', f'class {outer}:',
+			f'\t{name}: ClassVar[{o}] = {val[o]}', f'\town{self.fresh("")}: ClassVar[{o}] = {name}', '',
+			f'\tclass {inner}:']
+		if own:
+			out += [f'\t\t{name}: ClassVar[{i}] = {val[i]}']
+			self.count('shadow:own')
+		out += [f'\t\tc{self.fresh("")}: ClassVar[{i if own else g}] = {name}', f'\t\td{self.fresh("")}: ClassVar[{o}] = {other}']
+		if rng.random() < 0.5:
+			out += ['', f'\t\tclass {inner2}:', f'\t\t\te{self.fresh("")}: ClassVar[{g}] = {name}']
+			self.count('shadow:two-levels')
+		m1, m2 = self.fresh('m'), self.fresh('m')
+		out += ['', f'\t\tdef {m1}(self) -> {g}:', f'\t\t\t{self.fresh("v")} = {name}', f'\t\t\treturn {name}', '',
+			f'\tdef {m2}(self) -> {o}:', f'\t\t{self.fresh("v")} = {name}', f'\t\t{self.fresh("v")} = {outer}.{name}', f'\t\treturn {outer}.{name}', '']
+		self.count('shadow')
+		self.shadow_calls = [f'{outer}().{m2}()', f'{outer}.{inner}().{m1}()']
+		return out
 
 	def generate(self) -> tuple[str, dict[str, int]]:
 		rng = self.rng
@@ -54,7 +85,12 @@ class ProgGen:
 			imports.append('from enum import Enum')
 		if use_generic:
 			imports.append('from typing import Generic, TypeVar')
+		use_shadow = rng.random() < 0.7
+		if use_shadow:
+			imports.append('from typing import ClassVar')
 		out += imports
+		if use_shadow:
+			out += self.shadow_block()
 		if use_generic:
 			out += ['', "T = TypeVar('T')"]
 		enum_name = None
@@ -121,10 +157,8 @@ class ProgGen:
 		lobjs = [o1, o2]
 		if sub:
 			objs.append(decl(f'{sub}(2)'))
-			if self.allow_hetero:
-				# a list literal over a class and its subclass mixes classes (see allow_hetero)
-				lobjs.append(objs[-1])
-				self.allow_hetero = False
+			# (a list literal over a class AND its subclass is typed list<Union<C, D>>, on whose elements no attribute resolves:
+			#  defect candidate proposed/C03-union-of-subclasses-attribute.md, kept out of the generated domain)
 		lst = decl('[' + ', '.join(lobjs) + ']')
 		self.count('list-of-objects')
 		for a, k, _ in attrs:
@@ -171,6 +205,8 @@ class ProgGen:
 			decl(f'{g}.all()')
 			decl(f'{g}.data')
 			decl(f'[w for w in {g}.all()]')
+		for c in self.shadow_calls:
+			decl(c)
 		# loops
 		i, y = self.fresh('i'), self.fresh('y')
 		body.append(f'\tfor {i}, {y} in enumerate({lst}):')
@@ -179,7 +215,7 @@ class ProgGen:
 		body.append(f'\t\t{self.fresh("v")} = {self.scalar_expr(rng.choice(SCALARS), env)}')
 		# a few generated expressions over the scalars
 		for _ in range(rng.randint(2, 5)):
-			g2 = X.Gen(rng, env, 'search', session={'hetero': 0})
+			g2 = X.Gen(rng, env, 'search', session=None)
 			t = g2.pick_ty(2)
 			decl(g2.expr(t, rng.randint(1, 3)).text)
 		main = self.fresh('main')
